@@ -355,6 +355,15 @@ func famDelivery(o *corr.Out, n int) {
 				sc.do(fmt.Sprintf("snd!s%d.%d!%d!%d!%d", idx, k, idx, k, l))
 				pump()
 				tried = append(tried, [3]int{idx, k, l})
+				// C01: a send that succeeded (automatic flushing) has reached the peer without a further call
+				if !sc.cfg.Manual && strings.HasPrefix(prog, "r") && sc.results()[fmt.Sprintf("s%d.%d", idx, k)] == "nil" {
+					want := fmt.Sprintf("H%d:recv:%d/1/%d/%d", idx, idx, k, l)
+					if !contains(sc.handlerLog(), want) {
+						o.Oracle("C01:send-reaches-peer", sc.request(), "send returned nil and the transport is drained, but the handler has not received "+want)
+					} else {
+						o.OracleOK("C01:send-reaches-peer")
+					}
+				}
 			}
 			sc.do(fmt.Sprintf("cls!c%d!%d", idx, idx))
 			pump()
@@ -934,6 +943,39 @@ func famFault(o *corr.Out, n int) {
 				o.Oracle("C05:reports-closed", sc.request(), fmt.Sprintf("event %s at step %d: Closed() not signalled: %s", ev, at, ob))
 			default:
 				o.OracleOK("C05:fault-contained")
+			}
+			// a send (or unary call) on the broken end that completes after the break cannot report success
+			if ev == "fail!$E" && !cfg.Manual {
+				broken := ""
+				seenFail := false
+				for i, a := range sc.acts {
+					if a == "fail!A" {
+						seenFail = true
+						continue
+					}
+					if !seenFail || !strings.HasPrefix(a, "snd!") && !strings.HasPrefix(a, "inv!u") {
+						continue
+					}
+					op := strings.Split(a, "!")[1]
+					if v := res[op]; v == "nil" || strings.HasPrefix(v, "ok:") {
+						broken = fmt.Sprintf("%s issued at action %d after the client transport broke returned %s", op, i, v)
+					}
+				}
+				// the operation whose write was parked when the transport broke
+				for i, a := range sc.acts {
+					if a == "fail!A" && i > 0 {
+						for _, p := range lastPending(sc.obs[i-1]) {
+							if v := res[p]; (strings.HasPrefix(p, "s") || strings.HasPrefix(p, "u")) && (v == "nil" || strings.HasPrefix(v, "ok:")) {
+								broken = fmt.Sprintf("%s was in flight when the client transport broke and returned %s", p, v)
+							}
+						}
+					}
+				}
+				if broken != "" {
+					o.Oracle("C05:failed-write-reported", sc.request(), broken)
+				} else {
+					o.OracleOK("C05:failed-write-reported")
+				}
 			}
 			// later calls fail instead of hanging
 			ob2 := sc.do("inv!late!98!r1.s1:1.x!1!98")
